@@ -57,7 +57,11 @@ impl Cancel {
     }
 
     pub fn check(available_data: usize, length: usize) -> Result<usize, Error> {
-        match length == Cancel::LEN as usize && available_data >= Cancel::LEN_SIZE + length {
+        if length != Cancel::LEN as usize {
+            return Err(Error::InvalidLength("Cancel"));
+        }
+
+        match available_data >= Cancel::LEN_SIZE + length {
             true => return Ok(Cancel::FULL_SIZE),
             false => Err(Error::Incomplete("Cancel")),
         }
